@@ -272,12 +272,26 @@ os.environ["TF_USE_LEGACY_KERAS"] = "1"
 sys.path.insert(0, sys.argv[1])
 import tensorflow as tf
 from tensorflow.keras.layers import Input
-from qkeras import QConv2D, QConv1D, QDepthwiseConv2D, QSeparableConv2D, QSeparableConv1D, quantized_bits
+from qkeras import QConv2D, QConv1D, QDepthwiseConv2D, QSeparableConv2D, QSeparableConv1D, QDense, quantized_bits
 from qkeras.estimate import extract_model_operations
 w = json.loads(sys.argv[2])
 kind = w["kind"]
 g = lambda n, d=1: max(1, min(int(w.get(n, d)), 6))
 q = lambda: quantized_bits(4, 0, 1)
+if kind.startswith("QDense"):
+  ni, no = g("Ni"), g("No")
+  i = Input((1, 1, ni) if kind == "QDense_se" else (ni,))
+  x = QDense(no, kernel_quantizer=q(), bias_quantizer=q(), use_bias=(kind != "QDense_nobias"), name="layer0")(i)
+  macs = ni * no
+  m = tf.keras.Model(i, x)
+  try:
+    ops = extract_model_operations(m)
+    rep, raised = int(ops["layer0"]["number_of_operations"]), None
+  except Exception as e:
+    rep, raised = None, repr(e)
+  print("RESULT " + json.dumps({"reported": rep, "macs": int(macs), "raised": raised,
+                                "input_shape": list(m.input_shape[1:]), "output_shape": list(m.output_shape[1:])}))
+  sys.exit(0)
 if kind in ("QConv2D", "QDepthwiseConv2D", "QSeparableConv2D"):
   kh, kw, ho, wo, ci = g("Kh"), g("Kw"), g("Ho"), g("Wo"), g("Ci")
   i = Input((ho + kh - 1, wo + kw - 1, ci))
@@ -322,7 +336,7 @@ def c19_extract(d):
   w = dict(d["witness"] or {})
   w["kind"] = (w.get("__replay__") or {}).get("kind")
   w.pop("__replay__", None)
-  if d["clause"] != "count":
+  if d["clause"] not in ("count", "no_raise"):
     return {"status": "unsupported", "detail": "clause %s" % d["clause"]}
   repo = os.environ.get("QKERAS_VERIF_REPO", "/repo")
   r = subprocess.run([sys.executable, "-c", _C19_EXTRACT_SCRIPT, repo, _json.dumps(w)], capture_output=True, text=True,
@@ -331,6 +345,9 @@ def c19_extract(d):
   if not line:
     return {"status": "error", "detail": (r.stderr or r.stdout)[-800:]}
   res = _json.loads(line[0][7:])
+  if d["clause"] == "no_raise":
+    return {"status": "confirmed" if res.get("raised") else "refuted", "observed": res,
+            "expected": "extract_model_operations returns a count for the layer"}
   return {"status": "confirmed" if res["reported"] != res["macs"] else "refuted", "observed": res,
           "expected": "number_of_operations == multiply-accumulate operations of the layer"}
 
